@@ -689,7 +689,9 @@ EvalProblem(r) ==
       orderAx == SelectSeq(own, LAMBDA n : IsOrderName(n.name))
       preamble == SelectSeq(own, LAMBDA n : ~IsOrderName(n.name))
       \* C12: truth of every own axiom under the standard interpretation (no user predicate occurs in them)
-      ownVals == [k \in DOMAIN own |-> Ground(FormS(own[k].f, <<>>, tab, rank), EmptyEnv).k]
+      \* ("X": the axiom mentions a constant that is neither a symbolic constant of the source formulas nor bound: it cannot be
+      \* given its standard meaning)
+      ownVals == [k \in DOMAIN own |-> LET g == FormS(own[k].f, <<>>, tab, rank) IN IF FV(g) # {} THEN "X" ELSE Ground(g, EmptyEnv).k]
       ConstName(t) == IF t.k = "app" /\ t.f = "f__symbolic__" /\ Len(t.args) = 1 /\ t.args[1].k = "app" THEN t.args[1].f ELSE "?"
       chain == [k \in DOMAIN orderAx |-> IF orderAx[k].f.k = "patom" /\ orderAx[k].f.p = "p__less__" /\ Len(orderAx[k].f.args) = 2
                                          THEN <<ConstName(orderAx[k].f.args[1]), ConstName(orderAx[k].f.args[2])>> ELSE <<"?", "?">>]
@@ -710,7 +712,10 @@ EvalProblem(r) ==
                 IF Len(user) = Len(r.source) /\ roleOk THEN OkT ELSE BadT([note |-> "formulas of the text and of the problem differ in number or role"]), ""),
             Out(r, "C06.problem_formulas_preserve_meaning", meaningAll, ""),
             Out(r, "C12.own_axioms_true_in_standard_interpretation",
-                IF \E k \in DOMAIN own : ownVals[k] = "F"
+                IF \E k \in DOMAIN own : ownVals[k] = "X"
+                THEN BadT([note |-> "an axiom anthem adds mentions a constant that is not a symbolic constant of the problem's formulas",
+                           axiom |-> own[CHOOSE k \in DOMAIN own : ownVals[k] = "X"].name])
+                ELSE IF \E k \in DOMAIN own : ownVals[k] = "F"
                 THEN LET bad == own[CHOOSE k \in DOMAIN own : ownVals[k] = "F"] IN
                      BadT([note |-> "an axiom anthem adds is false under the standard interpretation", axiom |-> bad.name,
                            pair |-> IF IsOrderName(bad.name) /\ bad.f.k = "patom" /\ Len(bad.f.args) = 2 THEN <<ConstName(bad.f.args[1]), ConstName(bad.f.args[2])>> ELSE <<>>,
